@@ -6,10 +6,10 @@ from fractions import Fraction
 
 from ..core import Prop, Violation, import_repo, show_bool, show_rat
 
-CP = ["none", "pass", "reject", "raise", "odd"]
-PR = ["ok", "raise"]
-EH = ["none", "ok", "raise"]
-AMPS = ["1", "2", "4", "1/2", "8", "1/4"]
+CP = ["none", "pass", "reject", "raise", "odd", "raise0", "lt50"]
+PR = ["ok", "raise", "raise0"]
+EH = ["none", "ok", "raise", "raise0"]
+AMPS = ["1", "2", "4", "1/2", "8", "1/4", "0", "-2"]
 MAXA = ["4", "100", "1", "16"]
 
 
@@ -40,12 +40,38 @@ class C19(Prop):
         lines.append(f"run {x}")
         return {"lines": lines, "note": note}
 
+    def _rand_stage(self, rng):
+        return (rng.choice(CP), rng.choice(["ok", "ok", "ok", "raise", "raise0"]), rng.choice(EH), rng.random() < 0.7,
+                rng.choice(AMPS))
+
     def generate(self, rng, tier, n):
-        for _ in range(n):
+        for it in range(n):
             k = rng.choice([1, 2, 2, 3, 3, 4, 5, 6])
-            stages = [(rng.choice(CP), rng.choice(["ok", "ok", "raise"]), rng.choice(EH), rng.random() < 0.7,
-                       rng.choice(AMPS)) for _ in range(k)]
-            yield self._case(rng.random() < 0.5, rng.choice(MAXA), stages, rng.choice([0, 1, 2, 7]), "random")
+            stages = [self._rand_stage(rng) for _ in range(k)]
+            case = self._case(rng.random() < 0.5, rng.choice(MAXA), stages, rng.choice([0, 1, 2, 7]), "random")
+            if it % 3 == 0:
+                # history on the same cascade object: more runs (equal and different signals), stages removed and
+                # re-inserted under the same or another stage's name, then run again
+                lines = case["lines"]
+                names = [f"s{i}" for i in range(k)]
+                for _ in range(rng.randint(1, 5)):
+                    r = rng.random()
+                    if r < 0.45:
+                        lines.append(f"run {rng.choice([0, 1, 1, 2, 7, 11])}")
+                    elif r < 0.7 and names:
+                        nm = rng.choice(names)
+                        lines.append(f"remove {nm}")
+                        if nm in names:
+                            names.remove(nm)
+                    else:
+                        cp, pr, eh, req, amp = self._rand_stage(rng)
+                        nm = rng.choice(names + [f"s{rng.randint(0, 6)}", "dup"])
+                        idx = rng.randint(0, len(names))
+                        lines.append(f"insert {idx} {cp} {pr} {eh} {show_bool(req)} {amp} {nm}")
+                        names.insert(idx, nm)
+                lines.append(f"run {rng.choice([0, 1, 1, 2, 7])}")
+                case["note"] = "random history on one cascade"
+            yield case
 
     def exhaustive(self, tier):
         depth = 2 if tier == "quick" else 3
@@ -56,9 +82,21 @@ class C19(Prop):
             for stages in itertools.product(alpha, repeat=k):
                 for halt in (True, False):
                     cases.append(self._case(halt, "4", list(stages), 1, f"exhaustive depth {k}"))
-        # the MAPK preset shipped with the module
+        hist = []
+        for halt in (True, False):
+            for g1 in ("pass", "odd", "lt50", "reject", "raise0"):
+                for g2 in ("pass", "odd", "lt50", "reject", "raise", "none"):
+                    for x in (1, 2):
+                        hist.append({"lines": [f"cfg {show_bool(halt)} 4", f"stage {g1} ok none 1 2 a", f"run {x}",
+                                               "remove a", f"insert 0 {g2} ok none 1 2 a", f"run {x}", f"run {x + 1}"],
+                                     "note": "exhaustive: gate replaced under the same stage name between runs"})
+                        hist.append({"lines": [f"cfg {show_bool(halt)} 4", f"stage {g1} ok none 1 1 a",
+                                               f"stage {g2} ok none 1 1 a", f"run {x}", f"run {x}"],
+                                     "note": "exhaustive: two stages sharing a name"})
         return [{"name": f"all pipelines of <= {depth} stages over the behaviour alphabet x both halt settings",
-                 "cases": cases}]
+                 "cases": cases},
+                {"name": "same-object histories: gate replaced under the same name between runs; stages sharing a name",
+                 "cases": hist}]
 
     # --- implementation -----------------------------------------------------------------------------------
     def run_impl(self, case):
@@ -66,102 +104,146 @@ class C19(Prop):
         obs = []
         casc = None
         log = []
-        beh = []
+        cur = []       # descriptors of the stages currently in the cascade, in order (parallel to casc._stages)
+        made = [0]
+
+        class Boom(Exception):
+            pass
+
+        def fault(kind, what):
+            # "raise0": exceptions whose str() is empty, of several classes
+            if kind == "raise0":
+                return [ValueError(), AssertionError(), RuntimeError(""), Boom()][made[0] % 4]
+            return RuntimeError(what)
+
+        def mk(cp, pr, eh, req, amp, name):
+            d = {"cp": cp, "pr": pr, "eh": eh, "req": req, "amp": amp, "id": made[0], "name": name}
+            made[0] += 1
+            i0 = d["id"]
+
+            def pos():
+                return next(k for k, x in enumerate(cur) if x is d)
+
+            def cpf(x):
+                if cp in ("raise", "raise0"):
+                    log.append(f"cp{pos()}:{x}:x")
+                    raise fault(cp, "cp")
+                r = True if cp == "pass" else False if cp == "reject" else \
+                    (isinstance(x, int) and x % 2 == 1) if cp == "odd" else (isinstance(x, int) and x < 50)
+                log.append(f"cp{pos()}:{x}:{'t' if r else 'f'}")
+                return r
+
+            def pf(x):
+                log.append(f"p{pos()}:{x}")
+                if pr != "ok":
+                    raise fault(pr, "p")
+                return x * 10 + i0 + 1
+
+            def ef(e):
+                log.append(f"e{pos()}")
+                if eh != "ok":
+                    raise fault(eh, "e")
+                return 7000 + i0
+            st = m.CascadeStage(name, pf, amplification=amp, checkpoint=None if cp == "none" else cpf,
+                                on_error=None if eh == "none" else ef, required=req)
+            return d, st
+
+        def ensure():
+            nonlocal casc
+            if casc is None:
+                casc = m.Cascade("c", silent=True)
+
         for line in case["lines"]:
             t = line.split()
-            if t[0] == "cfg":
-                casc = m.Cascade("c", halt_on_failure=t[1] == "1", max_amplification=float(Fraction(t[2])), silent=True)
-                log.clear()
-                beh.clear()
-                obs.append("ok")
-            elif t[0] == "stage":
-                if casc is None:
-                    casc = m.Cascade("c", silent=True)
-                i = len(beh)
-                cp, pr, eh, req, amp = t[1], t[2], t[3], t[4] == "1", float(Fraction(t[5]))
-                beh.append((cp, pr, eh, req, amp))
-
-                def mkcp(i=i, cp=cp):
-                    if cp == "none":
-                        return None
-
-                    def f(x):
-                        if cp == "raise":
-                            log.append(f"cp{i}:{x}:x")
-                            raise RuntimeError("cp")
-                        r = True if cp == "pass" else False if cp == "reject" else (isinstance(x, int) and x % 2 == 1)
-                        log.append(f"cp{i}:{x}:{'t' if r else 'f'}")
-                        return r
-                    return f
-
-                def mkp(i=i, pr=pr):
-                    def f(x):
-                        log.append(f"p{i}:{x}")
-                        if pr == "raise":
-                            raise RuntimeError("p")
-                        return x * 10 + i + 1
-                    return f
-
-                def mke(i=i, eh=eh):
-                    if eh == "none":
-                        return None
-
-                    def f(e):
-                        log.append(f"e{i}")
-                        if eh == "raise":
-                            raise RuntimeError("e")
-                        return 7000 + i
-                    return f
-                casc.add_stage(m.CascadeStage(f"s{i}", mkp(), amplification=amp, checkpoint=mkcp(), on_error=mke(),
-                                              required=req))
-                obs.append("ok")
-            elif t[0] == "run":
-                if casc is None:
-                    casc = m.Cascade("c", silent=True)
-                del log[:]
-                try:
+            try:
+                if t[0] == "cfg":
+                    casc = m.Cascade("c", halt_on_failure=t[1] == "1", max_amplification=float(Fraction(t[2])), silent=True)
+                    log.clear()
+                    cur.clear()
+                    made[0] = 0
+                    obs.append("ok")
+                elif t[0] == "stage" and len(t) in (6, 7):
+                    ensure()
+                    name = t[6] if len(t) == 7 else f"s{made[0]}"
+                    d, st = mk(t[1], t[2], t[3], t[4] == "1", float(Fraction(t[5])), name)
+                    casc.add_stage(st)
+                    cur.append(d)
+                    obs.append("ok")
+                elif t[0] == "insert" and len(t) == 8:
+                    ensure()
+                    d, st = mk(t[2], t[3], t[4], t[5] == "1", float(Fraction(t[6])), t[7])
+                    idx = min(int(t[1]), len(cur))
+                    casc.insert_stage(idx, st)
+                    cur.insert(idx, d)
+                    obs.append("ok")
+                elif t[0] == "remove" and len(t) == 2:
+                    ensure()
+                    ok = casc.remove_stage(t[1])
+                    if ok:
+                        k = next(k for k, x in enumerate(cur) if x["name"] == t[1])
+                        cur.pop(k)
+                    obs.append("1" if ok else "0")
+                elif t[0] == "run" and len(t) == 2:
+                    ensure()
+                    del log[:]
                     r = casc.run(int(t[1]))
-                except Exception as e:
-                    obs.append(f"raise:{type(e).__name__}")
-                    continue
-                st = {"completed": "c", "failed": "f", "skipped": "s", "blocked": "b"}
-                res = ",".join(f"{s.stage_name[1:]}{st.get(s.status.value, '?')}:{show_rat(s.amplification_factor)}"
-                               for s in r.stage_results)
-                fin = "none" if r.final_output is None else f"some:{r.final_output}"
-                blk = "none" if r.blocked_at is None else r.blocked_at[1:]
-                obs.append(" ".join([show_bool(r.success), fin, str(r.stages_completed), str(r.stages_total),
-                                     show_rat(r.total_amplification), blk, "[" + res + "]",
-                                     "[" + ",".join(log) + "]"]))
-            else:
-                obs.append("bad-op")
-        return obs, {"beh": list(beh)}
+                    st = {"completed": "c", "failed": "f", "skipped": "s", "blocked": "b"}
+                    res = ",".join(f"{j}{st.get(s.status.value, '?')}:{show_rat(s.amplification_factor)}"
+                                   for j, s in enumerate(r.stage_results))
+                    fin = "none" if r.final_output is None else f"some:{r.final_output}"
+                    blk = "none" if r.blocked_at is None else str(r.blocked_at)
+                    obs.append(" ".join([show_bool(r.success), fin, str(r.stages_completed), str(r.stages_total),
+                                         show_rat(r.total_amplification), blk, "[" + res + "]",
+                                         "[" + ",".join(log) + "]"]))
+                else:
+                    obs.append("bad-op")
+            except Exception as e:
+                obs.append(f"raise:{type(e).__name__}")
+        return obs, None
 
     # --- oracle: the property text, evaluated on what the real code did --------------------------------------
     def oracle(self, case, obs, extra):
         out = []
         halt, maxa = True, Fraction(100)
-        beh = []
+        beh = []          # (cp, pr, eh, req, amp, creation id, name) of the stages currently in the pipeline
+        made = 0
         for idx, (line, o) in enumerate(zip(case["lines"], obs)):
             t = line.split()
             if t[0] == "cfg":
-                halt, maxa, beh = t[1] == "1", Fraction(t[2]), []
-            elif t[0] == "stage":
-                beh.append((t[1], t[2], t[3], t[4] == "1", Fraction(t[5])))
-            elif t[0] == "run":
-                if o.startswith("raise:"):
-                    out.append(Violation("run_returns", "a CascadeResult", o, idx))
-                    continue
+                halt, maxa, beh, made = t[1] == "1", Fraction(t[2]), [], 0
+            elif t[0] == "stage" and len(t) in (6, 7):
+                beh.append((t[1], t[2], t[3], t[4] == "1", Fraction(t[5]), made, t[6] if len(t) == 7 else f"s{made}"))
+                made += 1
+            elif t[0] == "insert" and len(t) == 8:
+                beh.insert(min(int(t[1]), len(beh)), (t[2], t[3], t[4], t[5] == "1", Fraction(t[6]), made, t[7]))
+                made += 1
+            elif t[0] == "remove" and len(t) == 2:
+                k = next((k for k, b in enumerate(beh) if b[6] == t[1]), None)
+                if k is not None:
+                    beh.pop(k)
+            if o.startswith("raise:"):
+                out.append(Violation("call_returns", "a result", o, idx))
+                continue
+            if t[0] == "run" and len(t) == 2:
                 f = o.split(" ")
-                success, fin, blk = f[0] == "1", f[1], f[5]
+                success, fin = f[0] == "1", f[1]
                 res = [x for x in f[6][1:-1].split(",") if x]
                 log = [x for x in f[7][1:-1].split(",") if x]
-                # 1. processor only after a true checkpoint on the same signal
+
+                def gate_value(cp, sig):
+                    # what the checkpoint of kind cp answers for signal sig (None = raises)
+                    if cp in ("raise", "raise0"):
+                        return None
+                    v = int(sig) if sig.lstrip("-").isdigit() else None
+                    return {"pass": True, "reject": False, "odd": v is not None and v % 2 == 1,
+                            "lt50": v is not None and v < 50}[cp]
+                # 1. processor only directly after a checkpoint call of THIS stage, on the same signal, that returned true
                 for j, ev in enumerate(log):
                     if ev.startswith("p"):
                         i, sig = ev[1:].split(":")
-                        if beh[int(i)][0] != "none":
+                        if int(i) < len(beh) and beh[int(i)][0] != "none":
                             want = f"cp{i}:{sig}:t"
-                            if j == 0 or log[j - 1] != want:
+                            if j == 0 or log[j - 1] != want or gate_value(beh[int(i)][0], sig) is not True:
                                 out.append(Violation("processor_only_after_true_checkpoint", f"{want} right before {ev}",
                                                      f"log={log}", idx))
                 # 2. halt: nothing after a blocked / failed stage
@@ -181,21 +263,25 @@ class C19(Prop):
                 # 4./5. final output
                 if success:
                     x = int(t[1])
-                    for i, b in enumerate(beh):
-                        x = (x * 10 + i + 1) if b[1] == "ok" else 7000 + i
+                    for b in beh:
+                        x = (x * 10 + b[5] + 1) if b[1] == "ok" else 7000 + b[5]
                     if fin != f"some:{x}":
                         out.append(Violation("final_output_is_composition", f"some:{x}", fin, idx))
-                    if any(b[0] in ("reject", "raise") for b in beh):
+                    if any(b[0] in ("reject", "raise", "raise0") for b in beh):
                         out.append(Violation("success_with_failing_gate", "no success", o, idx))
                 elif fin != "none":
                     out.append(Violation("no_output_unless_success", "none", fin, idx))
-                # 6. amplification = clamped product of completed stages' factors
+                # 6. amplification = clamped product of completed stages' DECLARED factors (recovered stages count 1)
                 if maxa >= 1:
                     a = Fraction(1)
                     for r_ in res:
                         tag, fac = r_.split(":")
-                        if tag.endswith("c"):
-                            a = min(a * Fraction(fac), maxa)
+                        i = int(tag[:-1])
+                        if tag.endswith("c") and i < len(beh):
+                            declared = beh[i][4] if f"e{i}" not in log else Fraction(1)
+                            if Fraction(fac) != declared:
+                                out.append(Violation("reported_factor_is_the_stage_factor", show_rat(declared), fac, idx))
+                            a = min(a * declared, maxa)
                     if show_rat(a) != f[4]:
                         out.append(Violation("amplification_is_clamped_product", show_rat(a), f[4], idx))
         return out
